@@ -224,7 +224,8 @@ def c10(tier):
 def c11(tier):
     kw = dict(models=('std', 'crypto', 'json'), crypto_mode='euf')
     F = ['crypto/zz_verif_bdhke.go', 'crypto/zz_verif_derive.go']
-    return [Harness('VHarnessHashToCurve', 'crypto', F, bounds='every message (string of any length); counter loop unwound 40 times (messages needing more iterations: outside, probability 2^-40)', must_reach=('done',), unwind=42, salt_retries=True, **kw),
+    wide = [Harness('VHarnessKeysetId6', 'crypto', F, bounds='every set of exactly 6 keys with arbitrary distinct 64-bit amounts (every relative order)', must_reach=('done',), timeout_s=3000, **kw)] if tier == 'thorough' else []
+    return wide + [Harness('VHarnessHashToCurve', 'crypto', F, bounds='every message (string of any length); counter loop unwound 40 times (messages needing more iterations: outside, probability 2^-40)', must_reach=('done',), unwind=42, salt_retries=True, **kw),
             Harness('VHarnessKeysetId', 'crypto', F, bounds='every set of 1..3 keys with arbitrary distinct 64-bit amounts', must_reach=('done',), **kw),
             Harness('VHarnessKeysetId4', 'crypto', F, bounds='every set of exactly 4 keys with arbitrary distinct 64-bit amounts (every relative order)', must_reach=('done',), **kw),
             Harness('VHarnessKeysetId5', 'crypto', F, bounds='every set of exactly 5 keys with arbitrary distinct 64-bit amounts (every relative order)', must_reach=('done',), **kw),
